@@ -1510,16 +1510,24 @@ func (c *Ctx) compoundRegistries() {
 		})
 		n++
 		why := ""
-		var v1, v2 types.Object
+		var v1, v2, k1, k2 types.Object
 		if outer == nil || inner == nil {
 			why = "the function no longer has the two nested loops over the list (undecided, fails closed)"
 		} else {
-			a, ok1 := outer.Value.(*ast.Ident)
-			b, ok2 := inner.Value.(*ast.Ident)
-			if !ok1 || !ok2 {
+			if a, ok := outer.Value.(*ast.Ident); ok && a.Name != "_" {
+				v1 = info.ObjectOf(a)
+			}
+			if b, ok := inner.Value.(*ast.Ident); ok && b.Name != "_" {
+				v2 = info.ObjectOf(b)
+			}
+			if k, ok := outer.Key.(*ast.Ident); ok && k.Name != "_" {
+				k1 = info.ObjectOf(k)
+			}
+			if k, ok := inner.Key.(*ast.Ident); ok && k.Name != "_" {
+				k2 = info.ObjectOf(k)
+			}
+			if (v1 == nil && k1 == nil) || (v2 == nil && k2 == nil) {
 				why = "the loops do not name their elements (undecided, fails closed)"
-			} else {
-				v1, v2 = info.ObjectOf(a), info.ObjectOf(b)
 			}
 		}
 		if why == "" {
@@ -1587,20 +1595,36 @@ func (c *Ctx) compoundRegistries() {
 						return true
 					})
 				}
-				isVar := func(e ast.Expr, o types.Object) bool {
-					id, ok := ast.Unparen(e).(*ast.Ident)
-					return ok && info.ObjectOf(id) == o
+				// the element of a loop: its value variable, list[key], or a local set from either
+				elemOf := func(e ast.Expr, val, key types.Object, list ast.Expr) bool {
+					o, _ := c.origin(info, fi.Decl, e, 0)
+					o = ast.Unparen(o)
+					if id, ok := o.(*ast.Ident); ok {
+						return val != nil && info.ObjectOf(id) == val
+					}
+					if ix, ok := o.(*ast.IndexExpr); ok && key != nil && exprString(ix.X) == exprString(list) {
+						if kid, isID := ast.Unparen(ix.Index).(*ast.Ident); isID && info.ObjectOf(kid) == key {
+							return true
+						}
+					}
+					return false
+				}
+				isElem := func(e ast.Expr, which int) bool {
+					if which == 1 {
+						return elemOf(e, v1, k1, outer.X)
+					}
+					return elemOf(e, v2, k2, inner.X)
 				}
 				// both loops run over the same list, so (a, b) and (b, a) both occur: which loop
 				// variable comes first only permutes the registry
-				inOrder := len(operands) == 2 && isVar(operands[0], v1) && isVar(operands[1], v2)
-				swapped := len(operands) == 2 && isVar(operands[0], v2) && isVar(operands[1], v1) && exprString(outer.X) == exprString(inner.X)
+				inOrder := len(operands) == 2 && isElem(operands[0], 1) && isElem(operands[1], 2)
+				swapped := len(operands) == 2 && isElem(operands[0], 2) && isElem(operands[1], 1) && exprString(outer.X) == exprString(inner.X)
 				if !inOrder && !swapped {
 					var txt []string
 					for _, o := range operands {
 						txt = append(txt, exprString(o))
 					}
-					why = fmt.Sprintf("the compound appended for the pair (%s, %s) has the operands [%s]", v1.Name(), v2.Name(), strings.Join(txt, ", "))
+					why = fmt.Sprintf("the compound appended for a pair of the two loops' elements has the operands [%s]", strings.Join(txt, ", "))
 				}
 				return true
 			})
